@@ -110,6 +110,12 @@ func build(fields []modbus.Field, fc uint8, f spec.Framing, fluent bool) ([]modb
 	} else {
 		b.AddAll(fields)
 	}
+	if len(fields)%2 == 1 {
+		// the same builder may serve several request kinds: ask it for coil requests (and the other register function) first
+		_, _ = b.ReadCoilsTCP()
+		_, _ = b.ReadInputRegistersRTU()
+		_, _ = b.ReadDiscreteInputsRTU()
+	}
 	switch {
 	case fc == 3 && f == spec.TCP:
 		return b.ReadHoldingRegistersTCP()
